@@ -357,6 +357,18 @@ func c11GenXrd(r *Rng, tier string) c11XrdS {
 			case 5: // several at once
 				c.Kind, c.Plural = x.Names.Kind, x.Names.Plural
 			}
+		} else if r.Chance(1, 6) {
+			// near misses (no collision): case, prefix / extension, trailing separator
+			switch r.Intn(4) {
+			case 0:
+				c.Kind = c11Near(r, x.Names.Kind)
+			case 1:
+				c.Plural = c11Near(r, x.Names.Plural)
+			case 2:
+				c.Singular = c11Near(r, x.Names.Singular)
+			case 3:
+				c.ListKind = c11Near(r, x.Names.ListKind)
+			}
 		}
 		x.ClaimNames = &c
 	}
@@ -386,9 +398,26 @@ func c11GenXrd(r *Rng, tier string) c11XrdS {
 	if nv > 0 {
 		ref = r.Intn(nv)
 	}
+	// version names: "v1" is a prefix of two others; the order in the XRD is any order (half of the
+	// time not the canonical one), and (rarely) a name occurs twice
+	vnames := []string{"v1alpha1", "v1beta1", "v1", "v2"}
+	if r.Bool() {
+		pm := r.Perm(len(vnames))
+		vnames = []string{vnames[pm[0]], vnames[pm[1]], vnames[pm[2]], vnames[pm[3]]}
+	}
+	if nv >= 2 && r.Chance(1, 30) {
+		vnames[1] = vnames[0]
+	}
+	// a sequence in which LATER versions lack what earlier ones have (and the other way round)
+	shape := r.Intn(6)
 	for i := 0; i < nv; i++ {
-		v := c11Version{Name: []string{"v1alpha1", "v1beta1", "v1", "v2"}[i], Served: r.Chance(5, 6), Referenceable: i == ref,
+		v := c11Version{Name: vnames[i], Served: r.Chance(5, 6), Referenceable: i == ref,
 			Columns: c11GenColumns(r), Schema: c11GenSchema(r)}
+		if nv >= 2 && ((shape == 0 && i > 0) || (shape == 1 && i < nv-1)) {
+			v.Schema = c11SchemaS{Present: true, Raw: Pick(r, []string{`{"type":"object"}`, `{}`, `{"type":"object","properties":{"spec":{"type":"object"}}}`,
+				`{"type":"object","properties":{"spec":{"type":"object","properties":{"region":{"type":"string"}}},"status":{"type":"object"}}}`})}
+			v.Columns = []json.RawMessage{}
+		}
 		if r.Chance(1, 12) { // outside the quantifier (zero or several referenceable versions): the model is total
 			v.Referenceable = !v.Referenceable
 		}
@@ -426,10 +455,59 @@ func c11CloneXrd(x c11XrdS) c11XrdS {
 }
 
 // c11GenOld derives the previous state of the XRD from the new one.
+// c11Near returns a string that differs from s only in one identity dimension: case, a
+// suffix, a missing last character (s is then a proper extension of it), a trailing separator.
+func c11Near(r *Rng, s string) string {
+	if s == "" {
+		return "x"
+	}
+	switch r.Intn(6) {
+	case 0:
+		if u := strings.ToUpper(s); u != s {
+			return u
+		}
+		return strings.ToLower(s[:1]) + s[1:]
+	case 1:
+		if l := strings.ToLower(s); l != s {
+			return l
+		}
+		return strings.ToUpper(s[:1]) + s[1:]
+	case 2:
+		return s + "s"
+	case 3:
+		if len(s) > 1 {
+			return s[:len(s)-1]
+		}
+		return s + "x"
+	case 4:
+		return s + "."
+	}
+	return s + " "
+}
+
 func c11GenOld(r *Rng, n c11XrdS) c11XrdS {
 	o := c11CloneXrd(n)
 	for i, k := 0, r.Range(0, 2); i < k; i++ {
-		switch r.Intn(12) {
+		switch r.Intn(18) {
+		case 12:
+			o.Group = c11Near(r, o.Group)
+		case 13:
+			o.Names.Kind = c11Near(r, o.Names.Kind)
+		case 14:
+			o.Names.Plural = c11Near(r, o.Names.Plural)
+		case 15:
+			if o.ClaimNames != nil {
+				o.ClaimNames.Kind = c11Near(r, o.ClaimNames.Kind)
+			}
+		case 16:
+			if o.ClaimNames != nil {
+				o.ClaimNames.Plural = c11Near(r, o.ClaimNames.Plural)
+			}
+		case 17: // the names of the composite and of the claim swapped
+			if o.ClaimNames != nil {
+				o.Names.Kind, o.ClaimNames.Kind = o.ClaimNames.Kind, o.Names.Kind
+				o.Names.Plural, o.ClaimNames.Plural = o.ClaimNames.Plural, o.Names.Plural
+			}
 		case 0:
 			o.Group = "old." + o.Group
 		case 1:
@@ -609,7 +687,293 @@ func c11Sweep() []c11Scn {
 			out = append(out, c11Scn{Xrd: c11CloneXrd(n), Old: &oc, Server: srv})
 		}
 	}
+	// identity dimensions of the immutable names: case, extension, truncation, trailing separator
+	for i := 0; i < 5; i++ {
+		for _, f := range []func(string) string{strings.ToUpper, strings.ToLower, func(s string) string { return s + "s" },
+			func(s string) string { return s[:len(s)-1] }, func(s string) string { return s + "." }} {
+			n := base()
+			n.Versions = []c11Version{version("v1", true, map[string]any{"type": "object"})}
+			o := c11CloneXrd(n)
+			switch i {
+			case 0:
+				o.Group = f(o.Group)
+			case 1:
+				o.Names.Kind = f(o.Names.Kind)
+			case 2:
+				o.Names.Plural = f(o.Names.Plural)
+			case 3:
+				o.ClaimNames.Kind = f(o.ClaimNames.Kind)
+			case 4:
+				o.ClaimNames.Plural = f(o.ClaimNames.Plural)
+			}
+			out = append(out, c11Scn{Xrd: n, Old: &o, Server: c11Server{ExistsXR: true, ExistsClaim: true}})
+		}
+	}
+	// three versions of which only one is rich (spec / status properties, required, rules, oneOf,
+	// preserve-unknown-fields, descriptions, a name limit, columns), in each position
+	rich := map[string]any{"type": "object", "description": "rich", "properties": map[string]any{
+		"spec": map[string]any{"type": "object", "description": "rich spec", "properties": map[string]any{"region": map[string]any{"type": "string"}, "size": map[string]any{"type": "integer"}},
+			"required": []any{"region"}, "x-kubernetes-validations": []any{map[string]any{"rule": "self.size > 0"}}, "oneOf": []any{map[string]any{"required": []any{"size"}}},
+			"x-kubernetes-preserve-unknown-fields": true},
+		"status": map[string]any{"type": "object", "description": "rich status", "properties": map[string]any{"address": map[string]any{"type": "string"}},
+			"required": []any{"address"}, "x-kubernetes-validations": []any{map[string]any{"rule": "has(self.address)"}}, "oneOf": []any{map[string]any{"required": []any{"address"}}}},
+		"metadata": map[string]any{"type": "object", "properties": map[string]any{"name": map[string]any{"maxLength": 20}}}}}
+	for pos := 0; pos < 3; pos++ {
+		for _, order := range [][]string{{"v1alpha1", "v1beta1", "v1"}, {"v2", "v1", "v1beta1"}} {
+			x := base()
+			for i, vn := range order {
+				doc := any(map[string]any{"type": "object"})
+				if i == pos {
+					doc = rich
+				}
+				v := version(vn, i == (pos+1)%3, doc)
+				if i == pos {
+					v.Columns = []json.RawMessage{json.RawMessage(`{"name":"REGION","type":"string","jsonPath":".spec.region"}`)}
+				}
+				x.Versions = append(x.Versions, v)
+			}
+			out = append(out, c11Scn{Xrd: x})
+		}
+	}
+	// the author's top-level schema tries to alter the envelope
+	for _, top := range []map[string]any{
+		{"apiVersion": map[string]any{"type": "integer"}},
+		{"kind": map[string]any{"type": "string", "enum": []any{"Mine"}}},
+		{"metadata": map[string]any{"type": "string"}},
+		{"metadata": map[string]any{"type": "object", "properties": map[string]any{"name": map[string]any{"type": "integer", "maxLength": 12}, "labels": map[string]any{"type": "object"}}}},
+		{"extra": map[string]any{"type": "string"}, "data": map[string]any{"type": "object", "x-kubernetes-preserve-unknown-fields": true}},
+	} {
+		x := base()
+		x.Versions = []c11Version{version("v1", true, map[string]any{"type": "array", "properties": top, "required": []any{"extra", "status"},
+			"x-kubernetes-validations": []any{map[string]any{"rule": "has(self.extra)"}}, "x-kubernetes-preserve-unknown-fields": true})}
+		out = append(out, c11Scn{Xrd: x})
+	}
+	// the same process handles a sequence of requests: the same XRD with another schema, the claim
+	// offered later, an unrelated XRD; the API server refuses the property only the later state has
+	{
+		doc := func(prop string) map[string]any {
+			return map[string]any{"type": "object", "properties": map[string]any{"spec": map[string]any{"type": "object",
+				"properties": map[string]any{prop: map[string]any{"type": "string"}}, "required": []any{prop}}}}
+		}
+		a := base()
+		a.Versions = []c11Version{version("v1", true, doc("region"))}
+		b := c11CloneXrd(a)
+		b.Versions = []c11Version{version("v1", true, doc("size"))}
+		c := c11CloneXrd(b)
+		c.ClaimNames = nil
+		d := base()
+		d.Name, d.UID, d.Names = "xbuckets.example.org", "uid-other", c11NamesFor("XBucket")
+		cn := c11NamesFor("Bucket")
+		d.ClaimNames = &cn
+		d.Versions = []c11Version{version("v1", true, map[string]any{"type": "object"})}
+		both := c11Server{ExistsXR: true, ExistsClaim: true}
+		refuse := c11Server{ExistsXR: true, ExistsClaim: true, RejectProp: "size"}
+		ac, bc, cc := c11CloneXrd(a), c11CloneXrd(b), c11CloneXrd(c)
+		out = append(out,
+			c11Scn{Xrd: a, More: []c11Scn{{Xrd: b, Old: &ac, Server: refuse}, {Xrd: d, Server: both}, {Xrd: a, Old: &bc, Server: refuse}}},
+			c11Scn{Xrd: c, Old: &ac, Server: both, More: []c11Scn{{Xrd: b, Old: &cc, Server: both}, {Xrd: b, Old: &cc, Server: refuse}}},
+			c11Scn{Xrd: d, More: []c11Scn{{Xrd: a, Server: both}, {Xrd: d, Server: both}, {Xrd: b, Server: refuse}}})
+	}
+	// the world of an update: every error class in every call position, and the races between the
+	// webhook's read and its write (cache behind / missing, created, deleted, re-created, modified
+	// once, modified every time) for each of the two CRDs
+	{
+		n := base()
+		n.Versions = []c11Version{version("v1", true, map[string]any{"type": "object"})}
+		xr, cl := n.Name, c11ClaimCRDName(n)
+		mk := func(exists []string, acts ...c11Act) c11Scn {
+			o := c11CloneXrd(n)
+			return c11Scn{Xrd: c11CloneXrd(n), Old: &o, Server: c11Server{
+				WorldC: &c11World{Exists: []string{}, Acts: append([]c11Act{}, acts...)},
+				WorldU: &c11World{Exists: exists, Acts: append([]c11Act{}, acts...)}}}
+		}
+		for _, class := range c11ErrClasses {
+			for k := 0; k < 4; k++ {
+				out = append(out, mk([]string{xr, cl}, c11Act{K: k, Do: "err", Class: class}))
+			}
+			out = append(out, mk([]string{}, c11Act{K: 1, Do: "err", Class: class}))
+		}
+		for _, t := range []string{xr, cl} {
+			out = append(out,
+				mk([]string{xr, cl}, c11Act{K: 0, Do: "bump", Name: t}),
+				mk([]string{xr, cl}, c11Act{K: 0, Do: "bump", Name: t}, c11Act{K: 4, Do: "sync", Name: t}),
+				mk([]string{xr, cl}, c11Act{K: 1, Do: "bump", Name: t}, c11Act{K: 2, Do: "sync", Name: t}),
+				mk([]string{xr, cl}, c11Act{K: 3, Do: "bump", Name: t}, c11Act{K: 4, Do: "sync", Name: t}),
+				mk([]string{xr, cl}, c11Act{K: 1, Do: "delete", Name: t}),
+				mk([]string{xr, cl}, c11Act{K: 3, Do: "delete", Name: t}, c11Act{K: 3, Do: "sync", Name: t}),
+				mk([]string{xr, cl}, c11Act{K: 1, Do: "delete", Name: t}, c11Act{K: 1, Do: "create", Name: t}, c11Act{K: 2, Do: "sync", Name: t}),
+				mk([]string{}, c11Act{K: 0, Do: "create", Name: t}),
+				mk([]string{}, c11Act{K: 1, Do: "create", Name: t}),
+				mk([]string{}, c11Act{K: 3, Do: "create", Name: t}),
+				mk([]string{xr}, c11Act{K: 3, Do: "create", Name: t}, c11Act{K: 4, Do: "sync", Name: t}))
+		}
+	}
 	return out
+}
+
+// c11SpecPropNames lists the property names the author declares under spec in any version.
+func c11SpecPropNames(x c11XrdS) []string {
+	seen := map[string]bool{}
+	for _, v := range x.Versions {
+		if _, p := c11Parse(v.Schema); p != nil {
+			for k := range p.Properties["spec"].Properties {
+				seen[k] = true
+			}
+		}
+	}
+	var out []string
+	for k := range seen {
+		out = append(out, k)
+	}
+	sort.Strings(out)
+	return out
+}
+
+func c11CRDNames(x c11XrdS) []string {
+	out := []string{x.Name}
+	if cn := c11ClaimCRDName(x); cn != "" && cn != x.Name {
+		out = append(out, cn)
+	}
+	return out
+}
+
+// c11GenWorld draws the world of one admission request: which CRDs exist, what third parties
+// and the informer cache do before which API call, which call fails with which error class.
+func c11GenWorld(r *Rng, x c11XrdS, update bool) *c11World {
+	w := &c11World{Exists: []string{}, Acts: []c11Act{}}
+	names := c11CRDNames(x)
+	if update {
+		if r.Chance(2, 3) {
+			w.Exists = append(w.Exists, names[0])
+		}
+		if len(names) > 1 && r.Chance(1, 2) {
+			w.Exists = append(w.Exists, names[1])
+		}
+	} else if r.Chance(1, 10) {
+		w.Exists = append(w.Exists, Pick(r, names))
+	}
+	if r.Chance(3, 5) {
+		return w // a quiet world
+	}
+	n := Pick(r, names)
+	act := func(k int, do, name, class string) { w.Acts = append(w.Acts, c11Act{K: k, Do: do, Name: name, Class: class}) }
+	switch r.Intn(9) {
+	case 0: // the cache is behind: the CRD was modified and the informer has not caught up (yet)
+		act(0, "bump", n, "")
+		if r.Bool() {
+			act(r.Range(1, 8), "sync", n, "")
+		}
+	case 1: // a CRD created a moment ago that the cache does not have (yet)
+		act(0, "create", n, "")
+		if r.Bool() {
+			act(r.Range(1, 4), "sync", n, "")
+		}
+	case 2: // created by somebody else between the webhook's read and its write
+		act(r.Range(1, 3), "create", n, "")
+	case 3: // deleted by somebody else (garbage collector, user) between read and write; maybe still cached
+		act(r.Range(0, 3), "delete", n, "")
+		if r.Bool() {
+			act(r.Range(1, 4), "sync", n, "")
+		}
+	case 4: // modified by somebody else between read and write, once or again and again
+		for i, k := 0, r.Range(1, 6); i < k; i++ {
+			act(1+2*i+r.Intn(2), "bump", n, "")
+			if r.Chance(2, 3) {
+				act(2+2*i, "sync", n, "")
+			}
+		}
+	case 5: // deleted and re-created (same name, another object)
+		k := r.Range(0, 2)
+		act(k, "delete", n, "")
+		act(k, "create", n, "")
+		if r.Bool() {
+			act(k+1, "sync", n, "")
+		}
+	case 6, 7: // one API call fails
+		act(r.Intn(5), "err", "", Pick(r, c11ErrClasses))
+		if r.Chance(1, 3) {
+			act(r.Intn(6), "err", "", Pick(r, c11ErrClasses))
+		}
+	case 8: // anything
+		for i, k := 0, r.Range(1, 4); i < k; i++ {
+			do := Pick(r, []string{"bump", "delete", "create", "sync", "err"})
+			cl := ""
+			if do == "err" {
+				cl = Pick(r, c11ErrClasses)
+			}
+			act(r.Intn(6), do, Pick(r, names), cl)
+		}
+	}
+	sort.SliceStable(w.Acts, func(i, j int) bool { return w.Acts[i].K < w.Acts[j].K })
+	return w
+}
+
+func c11GenServer(r *Rng, x c11XrdS, hasOld bool) c11Server {
+	srv := c11Server{RejectXR: r.Chance(1, 8), RejectClaim: r.Chance(1, 8)}
+	if r.Chance(1, 6) {
+		ps := append(c11SpecPropNames(x), "region")
+		srv.RejectProp = Pick(r, ps)
+	}
+	srv.WorldC = c11GenWorld(r, x, false)
+	if hasOld {
+		srv.WorldU = c11GenWorld(r, x, true)
+	} else {
+		srv.WorldU = &c11World{Exists: []string{}, Acts: []c11Act{}}
+	}
+	for _, n := range srv.WorldU.Exists {
+		if n == x.Name {
+			srv.ExistsXR = true
+		} else {
+			srv.ExistsClaim = true
+		}
+	}
+	return srv
+}
+
+// c11GenNext is the next request the same process sees after `prev`: usually a new state of the
+// SAME XRD (same name and UID; a version's schema replaced, a version added or dropped, claim names
+// offered / withdrawn, a policy changed), sometimes an unrelated XRD.
+func c11GenNext(r *Rng, prev c11XrdS, tier string) c11Scn {
+	if r.Chance(1, 3) {
+		s := c11Scn{Xrd: c11GenXrd(r, tier)}
+		if r.Bool() {
+			o := c11GenOld(r, s.Xrd)
+			s.Old = &o
+		}
+		s.Server = c11GenServer(r, s.Xrd, s.Old != nil)
+		return s
+	}
+	n := c11CloneXrd(prev)
+	for i, k := 0, r.Range(1, 2); i < k; i++ {
+		switch r.Intn(6) {
+		case 0, 1:
+			if len(n.Versions) > 0 {
+				n.Versions[r.Intn(len(n.Versions))].Schema = c11GenSchema(r)
+			}
+		case 2:
+			if len(n.Versions) > 1 {
+				n.Versions = n.Versions[:len(n.Versions)-1]
+			}
+		case 3:
+			if len(n.Versions) < 4 {
+				n.Versions = append(n.Versions, c11Version{Name: fmt.Sprintf("v%d", 3+len(n.Versions)), Served: true, Columns: c11GenColumns(r), Schema: c11GenSchema(r)})
+			}
+		case 4:
+			if n.ClaimNames == nil {
+				c := c11GenNames(r, "Offered")
+				n.ClaimNames = &c
+			} else {
+				n.ClaimNames = nil
+			}
+		case 5:
+			p := Pick(r, []string{"Automatic", "Manual"})
+			n.DefCUP = &p
+		}
+	}
+	o := c11CloneXrd(prev)
+	s := c11Scn{Xrd: n, Old: &o}
+	s.Server = c11GenServer(r, s.Xrd, true)
+	return s
 }
 
 func c11Gen(r *Rng, tier string) c11Scn {
@@ -618,6 +982,16 @@ func c11Gen(r *Rng, tier string) c11Scn {
 		o := c11GenOld(r, s.Xrd)
 		s.Old = &o
 	}
-	s.Server = c11Server{ExistsXR: r.Chance(2, 3), ExistsClaim: r.Chance(1, 2), RejectXR: r.Chance(1, 8), RejectClaim: r.Chance(1, 8)}
+	s.Server = c11GenServer(r, s.Xrd, s.Old != nil)
+	s.More = []c11Scn{}
+	if r.Chance(1, 4) {
+		prev := s.Xrd
+		for i, k := 0, r.Range(1, 3); i < k; i++ {
+			m := c11GenNext(r, prev, tier)
+			m.More = []c11Scn{}
+			s.More = append(s.More, m)
+			prev = m.Xrd
+		}
+	}
 	return s
 }
